@@ -706,13 +706,28 @@ func (lb *LoadBalancer) proxyRequest(backend *Backend, w http.ResponseWriter, r 
 		statusCode:     http.StatusOK, // Default status code
 	}
 
+	// Decrement the connection count when done, also when the reverse proxy
+	// aborts the response with a panic (http.ErrAbortHandler).
+	defer func() {
+		backend.DecrementConnections()
+		vhook.Yield("lb.proxy.dec")
+		lb.metricsCollector.UpdateBackendConnections(backend.Name, backend.GetActiveConnections())
+
+		if rec := recover(); rec != nil {
+			// The response was cut short: count the request as failed. The
+			// backend is only blamed if the client is still there.
+			responseTime := time.Since(startTime)
+			lb.metricsCollector.RecordResponse(false, responseTime)
+			lb.metricsCollector.RecordBackendRequest(backend.Name, false, responseTime)
+			if lb.healthChecks.passiveEnabled && r.Context().Err() == nil {
+				lb.handlePassiveHealthCheck(backend, http.StatusBadGateway, r)
+			}
+			panic(rec)
+		}
+	}()
+
 	// Forward the request to the selected backend
 	backend.ReverseProxy.ServeHTTP(rw, r)
-
-	// Decrement the connection count when done
-	backend.DecrementConnections()
-	vhook.Yield("lb.proxy.dec")
-	lb.metricsCollector.UpdateBackendConnections(backend.Name, backend.GetActiveConnections())
 
 	// Record metrics and handle passive health checks
 	lb.recordRequestMetrics(backend, rw.statusCode, startTime, r)
